@@ -166,8 +166,23 @@ def r10_4_constants(ctx, prog, rule="R10.4"):
     if b is None:
         ctx.anchor_missing(rule, "<u32 as Decode>::decode")
     else:
-        rd = [c for c in b.calls() if re.search(r"BigEndian as byteorder::ByteOrder>::read_u32$", c.callee_path)]
-        ctx.ob(rule, "decode:big-endian", len(rd) == 1, "u32::decode reads with BigEndian::read_u32 (%d site)" % len(rd), b.where())
+        # semantically: the Ok value is the big-endian integer of bytes 0..4 of the input (byteorder read, from_be_bytes, ..)
+        from . import bytesem
+        dp, dinfo = C.explore_fn(prog, b.path, "x", [r"\{closure"], concrete_iters=True)
+        vals = set()
+        for pa in dp:
+            r = C.expr_of(pa, pa.ret)
+            if isinstance(r, tuple) and r[0] == "Result::Ok" and isinstance(r[1], tuple) and r[1][0] == "tuple":
+                v = r[1][1]
+                base = "top:" + (b.debug_name(1) or "arg1")
+                bv = bytesem.be_value(v, base)
+                if bv is None and isinstance(v, tuple) and len(v) == 2 and isinstance(v[0], str) and v[0].endswith("from_be_bytes"):
+                    # from_be_bytes(<array copied from the first 4 bytes>): the copy is a havocked array; look at what was copied
+                    cps = [C.expr_of(pa, e[2]) for e in pa.calls if re.search(r"copy_from_slice$|clone_from_slice$", e[1])]
+                    if len(cps) == 1:
+                        bv = bytesem.slice_view(cps[0][1], base)
+                vals.add(bv)
+        ctx.ob(rule, "decode:big-endian", vals == {(0, 4)}, "u32::decode returns the big-endian value of bytes %s of its input" % sorted(vals, key=str), b.where())
 
 
 # ------------------------------------------------------------------------------------------------ C04
